@@ -433,7 +433,7 @@ ocp.set_der(v, a)
         ubs = defaultdict(list)
         canons = defaultdict(list)
         for c, meta, args in stage._constraints["control"]:
-            key = (args["refine"],args["group_refine"])
+            key = (args["refine"],args["group_refine"],args["include_first"],args["include_last"])
             (lb,canon,ub), mc = self.constraint_inspector.canon(c)
 
             lbs[key].append(lb)
@@ -444,7 +444,7 @@ ocp.set_der(v, a)
 
         # Loop over lumps
         for k in keys:
-            (refine,group_refine) = k
+            (refine,group_refine,include_first,include_last) = k
             lb = ca.vcat(lbs[k])
             ub = ca.vcat(ubs[k])
             canon = ca.vcat(canons[k])
@@ -455,6 +455,8 @@ ocp.set_der(v, a)
             # Do a grouping along refinement grid if requested
             if group_refine:
                 assert not ca.depends_on(canon, stage.t)
+                if not (include_first and include_last):
+                    raise Exception("include_first/include_last cannot be combined with group_refine")
 
                 # lb <= canon <= ub
                 # Check for infinities
@@ -483,6 +485,9 @@ ocp.set_der(v, a)
                     opti.subject_to(self.eval(stage, results_max <= ub))
                     opti.subject_to(self.eval(stage, results_end <= ub))
             else:
+                # Leave out the end points that the user excluded
+                if not include_last: results = results[:,:-1]
+                if not include_first: results = results[:,1:]
                 n = results.shape[1]
                 lb = ca.repmat(lb,1,n)
                 ub = ca.repmat(ub,1,n)
